@@ -54,7 +54,9 @@ ExistenceMonotone == (Checked /\ Mode = "bands") => \A i, j \in DOMAIN Probs : L
    (p[1] * q[2] < q[1] * p[2]) => (HasLower(q) => HasLower(p)) /\ (HasUpper(q) => HasUpper(p))
 
 \* ---- routing ------------------------------------------------------------------------------
-RowSet == [id : 1..2, obs : {"A", "B", "none"}, t : 1..2, v : 1..2, dose : 0..1]
+\* dose = 1: the row carries a dose amount; dur = 1: it carries a duration.  A dose without a duration is a bolus and still a
+\* dose row; a duration without a dose is not a dose row.
+RowSet == [id : 1..2, obs : {"A", "B", "none"}, t : 1..2, v : 1..2, dose : 0..1, dur : 0..1]
 PL_Rng(s) == {s[i] : i \in DOMAIN s}
 RECURSIVE FirstOccIds(_, _)
 FirstOccIds(s, acc) == IF s = <<>> THEN acc
